@@ -207,6 +207,24 @@ example : Placed (wCfg true) wRo wFo (round (wCfg true) [0, 1] [5] [7] [0, 1] (w
 example : ∃ n, (wS1 false).files n 7 = some [1, 2, 3] :=
   (C14_no_loss (wCfg false) (wSumOK false) wRo wFo wS0 (wS1 false) wInit (wReach false)).2.1 7 _ (by decide)
 
+/-! ## outside the property: the server list changes AGAIN before an interrupted move was completed
+
+`C14_no_loss` fixes the routing function for the whole run.  If the list changes between an
+interrupted round and the round that should complete it, the left-over at the former destination is
+a non-owner copy that is NOT complete; it is shipped like a shard and, arriving last, replaces the
+good copy (repaired receiver) or is appended to it (pinned receiver).  Either way the file is lost.
+Stated as an assumption of the check ("the server list does not change between an interrupted
+round and the round that completes it"); shown here on the model. -/
+def w2Cfg (own : Nat) (trunc : Bool) : Cfg Nat Nat := { wCfg trunc with owner := fun _ => own, fowner := fun _ => own }
+/-- owner 1, transfer 0 → 1 interrupted at chunk 1; then the owner becomes 2 and nodes 0, 1 run `Sync` -/
+def w2S (trunc : Bool) : St Nat Nat :=
+  let s1 := syncNode (w2Cfg 1 trunc) { failAt := some (7, 1) } [0, 1, 2] [5] [7] 0 wS0
+  let s2 := syncNode (w2Cfg 2 trunc) noFault [0, 1, 2] [5] [7] 0 s1
+  syncNode (w2Cfg 2 trunc) noFault [0, 1, 2] [5] [7] 1 s2
+example : (w2S true).files 2 7 = some [1, 2] ∧ (w2S true).files 0 7 = none ∧ (w2S true).files 1 7 = none := by decide
+example : (w2S false).files 2 7 = some [1, 2, 3, 1, 2] ∧ (w2S false).files 0 7 = none ∧
+    (w2S false).files 1 7 = some [1, 2] ∧ (w2S false).failed 1 = true := by decide
+
 /-- An EMPTY shard file can never be moved (index-0 empty chunk → no checksum in the reply →
 mismatch), repaired receiver or not.  Not reachable through the shard manager: a bbolt file is never
 empty; hence the hypothesis `c ≠ []` of `Converges`. -/
